@@ -263,7 +263,9 @@ impl InfixOpManager {
             return (-1, -1);
         }
         let config = ans.unwrap();
-        let l_bp = config.0;
+        // binding powers are doubled so that the +1 / -1 that encodes associativity
+        // never collides with an operator registered at an adjacent precedence
+        let l_bp = config.0 * 2;
         let mut r_bp = 0;
         if config.2 == InfixOpAssociativity::LEFT {
             r_bp = l_bp + 1;
